@@ -171,7 +171,7 @@ def check_pda(acc, spec, N, ns, limits, stack=('x', 'y')):
                     continue
                 acc.c['premise_true' if premise else 'premise_false'] += 1
                 compare(acc, 'pda_words_up_to_n', inst, rp, got, accepted, n, sigma, subset_only=not premise)
-                if isinstance(got, set) and not got <= reflang:
+                if isinstance(got, (set, frozenset)) and not got <= reflang:
                     acc.viol('pda_words_up_to_n', 'enumerates a word that has no accepting computation', inst, repro=rp, observed=sorted(got - reflang)[:3])
                 if premise and got:
                     interesting = True
